@@ -786,6 +786,10 @@ class Dex:
         if depth < self.max_depth and self.inline(name):
             target = self.lookup_fn(name)
         if target is not None and "body" in target:
+            # a direct call of a closure body (`f(x)` on a local closure) uses the rust-call ABI: (closure, (args..)) -> untuple
+            if "{closure" in name.rsplit("::", 1)[-1] and len(args) == 2 and args[1] is not None and args[1][0] == "tup" \
+                    and target["body"]["argc"] == 1 + len(args[1][1]):
+                args = [args[0]] + list(args[1][1])
             yield from self.inline_call(target, args, st, depth)
             return
         yield st, self.opaque_call(st, name, args, c), False
